@@ -68,11 +68,9 @@ def build_graph(prog, fold):
                 if isinstance(r, ast.Return):
                     for q in dict_values_as_methods(prog, r.value, cn):
                         cg.add_edge("Transport.run", q)
-    g2 = prog.cls("GssapiWithMicAuthHandler")
-    for s in g2.node.body:
-        if isinstance(s, ast.Assign) and isinstance(s.value, ast.Dict) and "handler_table" in unparse(s.targets[0]):
-            for q in dict_values_as_methods(prog, s.value, "GssapiWithMicAuthHandler"):
-                cg.add_edge("Transport.run", q)
+    from ._shared import gss_handler_table
+    for (q, kind, txt) in gss_handler_table(prog):
+        cg.add_edge("Transport.run", q)
     # keep-alive callback: installed by Transport.set_keepalive, run from Packetizer.read_all on the transport thread
     sk = prog.func("Transport.set_keepalive")
     if any(M.is_call(c, attr="global_request") for c in ast.walk(sk.node)):
